@@ -2,6 +2,8 @@ import Flurry.Seq.Model
 import Flurry.Gen.Serde
 import Flurry.Spec.Bulk
 import Flurry.Lin
+import Flurry.Proto.ResizeMonitor
+import Flurry.Seq.Iter
 /-! # Line-protocol driver for the sequential model (`lean_exe flurry-model`)
 
 One request per line on stdin, one answer per line on stdout. Unknown or malformed lines are
@@ -116,6 +118,44 @@ def parseKRes (s : String) : Option Lin.KRes :=
   | ["true"] => some (.bool true)
   | ["false"] => some (.bool false)
   | _ => none
+
+/-- a frozen chain of tables for the `trav` request: tables separated by `;`, bins by `|`, a bin is
+`M` (forwarded), `-` (empty) or its nodes in `next` order separated by `+`, a node is `key.val.origin` -/
+def parseChain (s : String) : Option Seq.Iter.Chain :=
+  (s.splitOn ";").mapM fun t =>
+    (t.splitOn "|").mapM fun b =>
+      if b == "M" then some Seq.Iter.FBin.moved
+      else if b == "-" then some (.nodes [])
+      else
+        ((b.splitOn "+").mapM fun (n : String) =>
+          match n.splitOn "." with
+          | [k, v, o] => do
+            let k ← String.toNat? k; let v ← String.toNat? v; let o ← String.toNat? o
+            pure ({ hash := 0, key := k, ki := 0, val := v, vi := o } : Node)
+          | _ => none).map Seq.Iter.FBin.nodes
+
+/-- executable form of `Seq.Iter.ChainWF` -/
+def chainWFb (c : Seq.Iter.Chain) : Bool :=
+  (List.range (c.length - 1)).all (fun j => (Seq.Iter.tableAt c (j + 1)).length == 2 * (Seq.Iter.tableAt c j).length) &&
+  c.all (fun t => t.length > 0) &&
+  (match c.getLast? with | some t => t.all (· != .moved) | none => true)
+
+/-- `tid:word:acc:a:b:ok:seen` records of the control-word stream (`ctl` request) -/
+def parseCtlEvs (s : String) : Option (List Proto.ResizeMonitor.Ev) :=
+  if s == "" || s == "-" then some [] else
+  (s.splitOn ",").mapM fun p =>
+    match p.splitOn ":" with
+    | [t, w, k, a, b, ok, seen] => do
+      let t ← t.toNat?
+      let w ← match w with
+        | "sc" => some Proto.ResizeMonitor.Word.sizeCtl | "ti" => some .transferIndex
+        | "tab" => some .table | "nt" => some .nextTable | _ => none
+      let k ← match k with
+        | "ld" => some Proto.ResizeMonitor.Acc.load | "st" => some .store | "sw" => some .swap
+        | "cas" => some .cas | "y" => some .yield | _ => none
+      let a ← a.toInt?; let b ← b.toInt?; let seen ← seen.toInt?
+      pure { tid := t, word := w, acc := k, a := a, b := b, ok := ok == "1", seen := seen }
+    | _ => none
 
 def parseCalls (s : String) : Option Lin.History :=
   if s == "-" then some [] else
@@ -235,6 +275,20 @@ def step (st : St) (line : String) : St × String :=
              | some _ => "bad-certificate"      -- linearizable, but not by the order supplied
              | none => "not-linearizable")
     | _, _, _, _ => (st, "bad-op")
+  | ["trav", chain] =>
+    match (kv "chain=" chain).bind parseChain with
+    | some c =>
+      let ys := Seq.Iter.traverse c (Seq.Iter.fuelFor c) (Seq.Iter.initSt c)
+      let f := fun (n : Node) => s!"{n.key}.{n.val}.{n.vi}"
+      (st, s!"wf={chainWFb c} same_as_contents={decide (ys = Seq.Iter.contents c)} yields={",".intercalate (ys.map f)}")
+    | none => (st, "bad-op")
+  | ["ctl", stride, nstart, nfinal, sc0, ti0, q, evs] =>
+    match (kv "ncpu=" stride).bind parseNat?, (kv "nstart=" nstart).bind parseNat?,
+          (kv "nfinal=" nfinal).bind parseNat?, (kv "sc0=" sc0).bind String.toInt?,
+          (kv "ti0=" ti0).bind String.toInt?, (kv "ev=" evs).bind parseCtlEvs with
+    | some sd, some n0, some n1, some s0, some t0, some es =>
+      (st, Proto.ResizeMonitor.accept sd n0 n1 s0 t0 (q == "q=1") es)
+    | _, _, _, _, _, _ => (st, "bad-op")
   | ["clear"] => withCur st fun m => (setCur st (clear m), "ok")
   | ["reserve", n] =>
     match n.toNat? with
